@@ -159,8 +159,20 @@ def run_prop(st, label, prop, *args):
     nat = native_attempt(prop, *cargs)
     sym_val = concretize(m, cond)
     if bool(sym_val) != _holds(nat):
+        diag = ""
+        if os.environ.get("PYSX_DEBUG_MISMATCH"):
+            bad = []
+            for k in st.keys:
+                px = st.ex.by_key[abs(k) - 1]
+                v = m.eval(px.cond, model_completion=True)
+                if z3.is_true(v) != (k > 0):
+                    bad.append((st.keys.index(k), k, " ".join(px.cond.sexpr().split())[:200]))
+            rawbad = [" ".join(c.sexpr().split())[:200] for c in st.ex.raw_done.values()
+                      if not z3.is_true(m.eval(c, model_completion=True))]
+            diag = {"lits": len(st.keys), "preloaded": st.n_preloaded, "bad_lits": bad[:5], "bad_raw": rawbad[:5],
+                    "recheck": str(st._check()), "cond": " ".join(cond.sexpr().split())[:1500] if hasattr(cond, "sexpr") else repr(cond)}
         col.mismatch.append({"label": label, "args": _safe_enc(cargs), "symbolic": bool(sym_val),
-                             "native": repr(nat)})
+                             "native": repr(nat), "diag": diag})
     else:
         col.validated += 1
         if len(col.samples) < 3:
